@@ -153,7 +153,7 @@ fn ob_alphabet(n_orders: usize, with_overflow: bool) -> Vec<ObCall> {
 }
 
 fn ob_build(calls: &[ObCall]) -> OrderBook {
-    let mut b: OrderBook = OrderBook::new(0, ob_tick(), true);
+    let mut b: OrderBook = OrderBook::new(0, ob_tick(), start_trading());
     for (k, c) in calls.iter().enumerate() {
         ob_apply(&mut b, k, c);
     }
@@ -253,6 +253,10 @@ thread_local! {
     static ENV_TICK: std::cell::Cell<u32> = std::cell::Cell::new(TICK);
     static ENV_START: std::cell::Cell<u64> = std::cell::Cell::new(0);
     static OB_TICK: std::cell::Cell<u32> = std::cell::Cell::new(TICK);
+    static START_TRADING: std::cell::Cell<bool> = std::cell::Cell::new(true);
+}
+fn start_trading() -> bool {
+    START_TRADING.with(|s| s.get())
 }
 fn env_tick() -> u32 {
     ENV_TICK.with(|s| s.get())
@@ -265,7 +269,7 @@ fn ob_tick() -> u32 {
 }
 
 fn env_new(seed: u64) -> EnvW {
-    EnvW { env: Env::new(env_start(), env_tick(), step_size(), true), rng: Xoroshiro128StarStar::seed_from_u64(seed) }
+    EnvW { env: Env::new(env_start(), env_tick(), step_size(), start_trading()), rng: Xoroshiro128StarStar::seed_from_u64(seed) }
 }
 
 fn env_apply(w: &mut EnvW, c: &EnvCall) -> (Value, Option<&'static str>) {
@@ -480,7 +484,7 @@ fn env_scripted(w: &mut Writer, seed: u64, tick: u32, start: u64, ss: u64, calls
         let id = w.n;
         w.n += 1;
         w.calls += hist.len() as u64;
-        let line = json!({"id": id, "kind": "env", "seed": seed, "tick": tick, "start": start, "step_size": ss, "calls": calls_json, "exp": {"ret": ret, "exc": exc, "state": st, "drain": drain}});
+        let line = json!({"id": id, "kind": "env", "seed": seed, "tick": tick, "start": start, "step_size": ss, "trading": start_trading(), "calls": calls_json, "exp": {"ret": ret, "exc": exc, "state": st, "drain": drain}});
         writeln!(w.f, "{}", line).unwrap();
     }
     ENV_TICK.with(|s| s.set(TICK));
@@ -507,7 +511,7 @@ fn ob_scripted(w: &mut Writer, tick: u32, calls: &[ObCall]) {
         let id = w.n;
         w.n += 1;
         w.calls += hist.len() as u64;
-        let line = json!({"id": id, "kind": "ob", "tick": tick, "calls": calls_json, "exp": {"ret": ret, "exc": exc, "state": state, "drain": drain}});
+        let line = json!({"id": id, "kind": "ob", "tick": tick, "trading": start_trading(), "calls": calls_json, "exp": {"ret": ret, "exc": exc, "state": state, "drain": drain}});
         writeln!(w.f, "{}", line).unwrap();
     }
     OB_TICK.with(|s| s.set(TICK));
@@ -561,6 +565,37 @@ fn scripted_env_sets(w: &mut Writer) {
         ];
         env_scripted(w, 41, tick, 0, 100, &calls);
     }
+}
+
+/// objects constructed with trading switched off
+fn scripted_trading_off_sets(w: &mut Writer) {
+    START_TRADING.with(|s| s.set(false));
+    let calls = vec![
+        EnvCall::Place { bid: true, vol: 2, price: Some(6) },
+        EnvCall::Place { bid: false, vol: 3, price: Some(4) },
+        EnvCall::Place { bid: true, vol: 1, price: None },
+        EnvCall::Step,
+        EnvCall::Enable,
+        EnvCall::Place { bid: false, vol: 1, price: None },
+        EnvCall::Modify { id: 1, price: Some(4), vol: None },
+        EnvCall::Step,
+        EnvCall::Disable,
+        EnvCall::Step,
+    ];
+    env_scripted(w, 50, 2, 0, 100, &calls);
+    env_scripted(w, 51, 2, 5, 1, &calls);
+    let calls = vec![
+        ObCall::Place { bid: true, vol: 2, price: Some(6) },
+        ObCall::Place { bid: false, vol: 3, price: Some(4) },
+        ObCall::Place { bid: true, vol: 1, price: None },
+        ObCall::Enable,
+        ObCall::Place { bid: false, vol: 1, price: None },
+        ObCall::Modify { id: 1, price: Some(4), vol: None },
+        ObCall::Disable,
+        ObCall::Modify { id: 0, price: None, vol: Some(1) },
+    ];
+    ob_scripted(w, 2, &calls);
+    START_TRADING.with(|s| s.set(true));
 }
 
 fn scripted_ob_sets(w: &mut Writer) {
@@ -712,6 +747,7 @@ pub fn c18(tier: &str) -> i32 {
     STEP_SIZE.with(|s| s.set(100));
     scripted_env_sets(&mut w);
     scripted_ob_sets(&mut w);
+    scripted_trading_off_sets(&mut w);
     w.f.flush().unwrap();
     let n_total = w.n;
     out.set("states", json!(n_total));
